@@ -308,6 +308,11 @@ def check_detector(case):
     if gauss:
         ms = params.get("bandwidth", params.get("min_segment_length", 2))
         vmin = min(_minvar(X[a:a + ms], False) for a in range(0, n - ms + 1))
+        if name == "CircularBinarySegmentation":
+            # the pooled surroundings are not a contiguous window (e.g. one sample before and one
+            # after the inner interval): bound their variance through the smallest pairwise gap
+            gap = min(float(np.min(np.abs(X[i] - X[j]))) for i in range(n) for j in range(i + 1, n))
+            vmin = min(vmin, gap * gap / (2.0 * n))
         if not np.isfinite(vmin) or vmin <= max(1e-8 * M * M, 1e-300):
             return {"nontrivial": False, "classes": classes + ["near_degenerate_skipped"]}
         cost_tol = 16 * p * n * B / vmin
